@@ -25,7 +25,8 @@ from ..lib import CheckResult, Violation
 from ..tmpl import g
 
 M_GEN = 3                # level at which TLC generates the targets (Clifford+T ring Z[zeta_8][1/2])
-M = 5                    # ring level: angles are multiples of pi/8 (RZ/RY half angles pi/16 exact)
+LEVELS = (4, 5)           # trace levels: angles multiples of pi/4 (M=4, a quarter of the cost) or pi/8 (M=5)
+
 TOL = 1e-7
 LABELS = ["a", 3, "c", 0, "e", 7, "g", 11, "q", 5, "x", 9, "z", 13, "y2", 21]
 PW = {"I": 0, "X": 1, "Y": 2, "Z": 3}
@@ -208,8 +209,6 @@ def build_instances(tier, seed, targets, mps_data):
                 ww = labels(nt)
                 add("BasisState", lname, lambda ww=ww, b=bases[0]: qp.BasisState(np.array(b), wires=ww), ww, nt, "sparse", sdesc, "exact", ti, fam)
                 add("BasisEmbedding", lname, lambda ww=ww, b=bases[0]: qp.BasisEmbedding(b, wires=ww), ww, nt, "sparse", sdesc, "exact", ti, fam)
-                add("BasisEmbedding", lname + "-int", lambda ww=ww, i=idx[0]: qp.BasisEmbedding(i, wires=ww), ww, nt, "sparse", sdesc, "exact",
-                    ti, fam)
             if m >= 2:
                 ww = labels(nt + 1)
                 add("Superposition", lname, lambda ww=ww, c=coeffs, b=bases, nt=nt: qp.Superposition(c, b, wires=ww[:nt], work_wire=ww[nt]),
@@ -218,7 +217,7 @@ def build_instances(tier, seed, targets, mps_data):
                 ww = labels(nt)
                 add("SumOfSlatersPrep", lname + "-dyn", lambda ww=ww, c=coeffs, idx=idx: qp.SumOfSlatersPrep(c, wires=ww, indices=idx), ww, nt,
                     "sparse", sdesc, "phase" if one else "exact", ti, fam)
-                if m >= 2 and (tier != "quick" or ti % 3 == 0):
+                if m >= 2 and (tier != "quick" or ti % 6 == 0):
                     sizes = qp.SumOfSlatersPrep.required_register_sizes(idx, nt)
                     tot = sum(val for key, val in sizes.items() if key != "wires")
                     if nt + tot <= 9:
@@ -318,27 +317,50 @@ def _gauge_left(t, G):
 
 
 # ------------------------------------------------------------------------------------------------ run
-def _case(it, n, tw, b, rel):
+def _lift_tens(t, lv):
+    return {"sh": t["sh"], "k": t["k"], "e": tmpl.lift({"k": t["k"], "e": [t["e"]]}, M_GEN, lv)["e"][0]}
+
+
+def _case(it, n, tw, b, rel, lv):
     d = it["desc"]
-    return {"n": n, "kind": it["kind"], "tw": tw, "phi": d["phi"], "pick": d["pick"], "bases": d["bases"], "tens": d["tens"],
-            "b": b, "rel": rel}
+    return {"n": n, "kind": it["kind"], "tw": tw, "phi": tmpl.lift(d["phi"], M_GEN, lv), "pick": d["pick"], "bases": d["bases"],
+            "tens": [_lift_tens(t, lv) for t in d["tens"]], "b": b, "rel": rel, "M": lv}
 
 
 def run_tlc(cases, name):
-    wd = lib.workdir("C57", name)
-    (wd / "cases.json").write_text(json.dumps(cases))
-    r = lib.run_tlc("Trace_StatePrep", lib.cfg(constants={"M": M, "NCASES": len(cases)}, invariants=["TargetsNormalised"]), wd,
-                    env={"TRACE_FILE": str(wd / "cases.json")}, timeout=3000)
-    lib.require_ok(r, f"Trace_StatePrep {name}")
-    verdicts = {t[1] - 1: t[2] for t in r.tuples if t[0] == "V"}
-    targets = {j["tid"] - 1: lib.ring_matrix_to_numpy(j["t"], M)[:, 0] for j in r.json_lines}
+    """one TLC run per ring level (every case is validated at the coarsest level that holds its emitted angles exactly)"""
+    verdicts, targets = {}, {}
+    tot = {"distinct": 0, "generated": 0, "levels": {}}
+    for lv in LEVELS:
+        sel = [i for i, c in enumerate(cases) if c["M"] == lv]
+        if not sel:
+            continue
+        wd = lib.workdir("C57", f"{name}{lv}")
+        (wd / "cases.json").write_text(json.dumps([cases[i] for i in sel]))
+        r = lib.run_tlc("Trace_StatePrep", lib.cfg(constants={"M": lv, "NCASES": len(sel)}, invariants=["TargetsNormalised"]), wd,
+                        env={"TRACE_FILE": str(wd / "cases.json")}, timeout=3000)
+        lib.require_ok(r, f"Trace_StatePrep {name} level {lv}")
+        for t in r.tuples:
+            if t[0] == "V":
+                verdicts[sel[t[1] - 1]] = t[2]
+        for j in r.json_lines:
+            targets[sel[j["tid"] - 1]] = lib.ring_matrix_to_numpy(j["t"], lv)[:, 0]
+        tot["distinct"] += r.distinct
+        tot["generated"] += r.generated
+        tot["levels"][f"M={lv}"] = len(sel)
     if len(verdicts) != len(cases) or len(targets) != len(cases):
         raise lib.MachineryError(f"verdicts are not total: {len(verdicts)}/{len(targets)} of {len(cases)}")
-    return verdicts, targets, r
+    return verdicts, targets, tot
 
 
 def run(tier, seed):
+    import time
     stats = {"skipped": {}, "sources": {}, "raised": 0}
+    timing, t_last = {}, [time.time()]
+
+    def lap(name):
+        timing[name] = round(time.time() - t_last[0], 1)
+        t_last[0] = time.time()
 
     def skip(why):
         stats["skipped"][why] = stats["skipped"].get(why, 0) + 1
@@ -347,13 +369,14 @@ def run(tier, seed):
     tc = target_circuits(tier, seed)
     c2, c1 = mps_unitary_circuits(tier, seed)
     items = [(k, c, "state") for k, c, _ in tc] + [(k, c, "unitary") for k, c in c2 + c1]
-    ring, flt, st1 = tmpl.exact_targets("C57", items, M_GEN, M)
+    ring, flt, st1 = tmpl.exact_targets("C57", items, M_GEN, M_GEN)
     targets = [(k, fam, ring[i], flt[i]) for i, (k, c, fam) in enumerate(tc)]
     o2, o1 = len(tc), len(tc) + len(c2)
     u2 = list(zip(ring[o2:o1], flt[o2:o1]))
     u1 = list(zip(ring[o1:], flt[o1:]))
     two_qubit_states = [(ring[i], flt[i]) for i, (k, c, fam) in enumerate(tc) if k == 2 and not fam.startswith("asp")]
     states, trans = st1["distinct"], st1["generated"]
+    lap("tlc_targets")
     inst = build_instances(tier, seed, targets, (two_qubit_states, u2, u1))
 
     # ---- phase 2: run the templates, record what they emit
@@ -364,7 +387,7 @@ def run(tier, seed):
         try:
             op = it["make"]()
         except Exception as e:
-            viol.append(Violation(key=f"{key0}:constructor-raises:{type(e).__name__}",
+            viol.append(Violation(key=f"{it['tmpl']}[{it['variant'].split('-')[-1]}]:constructor-raises:{type(e).__name__}",
                                   detail=f"{key0} on target family {it['family']} raised {type(e).__name__}: {e}",
                                   replay={"template": it["tmpl"], "variant": it["variant"], "family": it["family"]}))
             stats["raised"] += 1
@@ -378,14 +401,17 @@ def run(tier, seed):
         seen = []
         for sname, ops in srcs:
             if isinstance(ops, Exception):
-                viol.append(Violation(key=f"{key0}:{sname}:raises:{type(ops).__name__}",
+                viol.append(Violation(key=f"{it['tmpl']}:{sname}:raises:{type(ops).__name__}",
                                       detail=f"{sname} of {it['op']} raised {type(ops).__name__}: {ops}",
                                       replay={"op": it["op"], "source": sname}))
                 stats["raised"] += 1
                 continue
-            wpos = wire_positions(reg)
             try:
-                recs, fl, info = tmpl.flatten2(ops, wpos, M)
+                for lv in LEVELS:
+                    wpos = wire_positions(reg)
+                    recs, fl, info = tmpl.flatten2(ops, wpos, lv)
+                    if recs is not None:
+                        break
             except tmpl.Skip as e:
                 skip(f"{it['tmpl']}:{sname}: {e}")
                 continue
@@ -405,23 +431,24 @@ def run(tier, seed):
                 if n > (8 if tier == "quick" else 10):
                     skip("too wide for TLC")
                     continue
-                cases.append(_case(it, n, tw, recs, it["rel"]))
+                cases.append(_case(it, n, tw, recs, it["rel"], lv))
                 owners.append((ii, sname, n))
                 have_tlc_case = True
             else:
-                float_srcs.append((ii, sname, fl, n))
+                float_srcs.append((ii, sname, fl, n, lv))
         it["n_emit"] = len(reg) + ndyn_max
         if not have_tlc_case:
-            cases.append(_case(it, len(reg), list(range(1, it["ntw"] + 1)), [], "emit"))
+            cases.append(_case(it, len(reg), list(range(1, it["ntw"] + 1)), [], "emit", LEVELS[0]))
             owners.append((ii, "emit", len(reg)))
         try:
             dev_states[ii] = tmpl.device_state(op, reg, ndyn_max)
         except Exception as e:
-            viol.append(Violation(key=f"{key0}:device:raises:{type(e).__name__}",
+            viol.append(Violation(key=f"{it['tmpl']}:device:raises:{type(e).__name__}",
                                   detail=f"default.qubit raised {type(e).__name__}: {str(e)[:300]} on {it['op']}",
                                   replay={"op": it["op"]}))
             stats["raised"] += 1
 
+    lap("python_templates")
     # ---- negative controls for TLC: a wrong documented coefficient / basis state, a dirty auxiliary wire
     negs = []
     for ci in range(0, len(cases), max(1, len(cases) // 25)):
@@ -451,8 +478,9 @@ def run(tier, seed):
         negs.append((len(cases) + len(negs), kind, bad))
     all_cases = cases + [b for _, _, b in negs]
     verdicts, exp, r = run_tlc(all_cases, "trace")
-    states += r.distinct
-    trans += r.generated
+    states += r["distinct"]
+    trans += r["generated"]
+    lap("tlc_trace")
     neg_rej = {}
     for ti_, kind, bad in negs:
         if verdicts[ti_] == "ok":
@@ -501,10 +529,10 @@ def run(tier, seed):
     def cmp(a, e, relname):
         return tmpl.equal_up_to_phase_vec(a, e, TOL) if relname == "phase" else bool(np.allclose(a, e, atol=TOL, rtol=0))
 
-    for (ii, sname, fl, n) in float_srcs:
+    for (ii, sname, fl, n, lv) in float_srcs:
         it = inst[ii]
         e, n0 = exp_of[ii]
-        got = tmpl.bridge_state(fl, n, M)
+        got = tmpl.bridge_state(fl, n, lv)
         n_bridge += 1
         per_tmpl[it["tmpl"]] = per_tmpl.get(it["tmpl"], 0) + 1
         nontrivial.add((it["tmpl"], it["variant"], it["family"], sname.split(":")[0]))
@@ -548,7 +576,7 @@ def run(tier, seed):
            "samples": samples, "exhaustive": False, "targets_generated_by_tlc": len(tc), "ring_unitaries_generated_by_tlc": len(c2) + len(c1),
            "template_instances": len(inst), "exact_by_tlc": n_exact, "bridged_float": n_bridge, "device_primitive_states": n_dev,
            "per_template_decompositions": per_tmpl, "negative_controls_rejected": sum(neg_rej.values()), "negative_controls": neg_rej,
-           **stats}
+           "wall_split_s": timing, "ring_levels": r["levels"], **stats}
     return CheckResult(coverage=cov, violations=viol, assumptions=[
         "documented states are the docstring definitions transcribed in Trace_StatePrep.tla; gate semantics = Gates.tla",
         "targets are Clifford+T-reachable ring states (<= 3 target wires, MPS bond dimension 2); coefficients enter the templates as "
